@@ -147,9 +147,9 @@ Fixpoint wf_b (t : ftree) : bool :=
   | FSent c0 t0 gs =>
     mixed_ok (c0 :: t0) gs && plain_first c0 && nomatch fl_block_token_ListItem_pattern re_block_token_ListItem_pattern c0 &&
     negb (is_space_c (last (c0 :: t0 ++ mbody gs) 0))
-  | FTick c0 pre code post =>
+  | FTick c0 pre n code post =>
     code_ok (c0 :: pre) code post && plain_first c0 && nomatch fl_block_token_ListItem_pattern re_block_token_ListItem_pattern c0 &&
-    negb (is_space_c (last (c0 :: tick_body pre code post) 0))
+    negb (is_space_c (last (c0 :: tick_body pre n code post) 0))
   | FBrk c body k more => brk_para_b ((c :: body, k) :: more)
   | FOne c0 pre x post =>
     inl_ok (c0 :: pre) x post && plain_first c0 && nomatch fl_block_token_ListItem_pattern re_block_token_ListItem_pattern c0 &&
@@ -534,11 +534,11 @@ Section Main.
   Qed.
 
   (* ---- FTick: a one-line paragraph with one code span ---- *)
-  Definition tick_line (c0 : Z) (pre code post : str) : str := c0 :: tick_body pre code post.
+  Definition tick_line (c0 : Z) (pre : str) (n : nat) (code post : str) : str := c0 :: tick_body pre n code post.
 
-  Lemma tick_wf c0 pre code post : wf_b (FTick c0 pre code post) = true ->
+  Lemma tick_wf c0 pre n code post : wf_b (FTick c0 pre n code post) = true ->
     code_ok (c0 :: pre) code post = true /\ plain_first c0 = true /\
-    nomatch fl_block_token_ListItem_pattern re_block_token_ListItem_pattern c0 = true /\ is_space_c (last (tick_line c0 pre code post) 0) = false.
+    nomatch fl_block_token_ListItem_pattern re_block_token_ListItem_pattern c0 = true /\ is_space_c (last (tick_line c0 pre n code post) 0) = false.
   Proof.
     cbn [wf_b]. intros H. repeat rewrite andb_true_iff in H. destruct H as [[[H1 H2] H3] H4]. apply negb_true_iff in H4. repeat split; assumption.
   Qed.
@@ -549,33 +549,33 @@ Section Main.
     unfold code_ok. intros H. repeat rewrite andb_true_iff in H. destruct H as [[[H1 H2] H3] _]. repeat split; assumption.
   Qed.
 
-  Lemma tick_no c c0 pre code post : mem c triggers_c = true -> wf_b (FTick c0 pre code post) = true -> mem c (tick_line c0 pre code post) = false.
+  Lemma tick_no c c0 pre n code post : mem c triggers_c = true -> wf_b (FTick c0 pre n code post) = true -> mem c (tick_line c0 pre n code post) = false.
   Proof.
-    intros Hc Hw. destruct (tick_wf _ _ _ _ Hw) as (Hok & _). destruct (tick_parts _ _ _ _ Hok) as (Hpre & Hpost & Hcode).
-    exact (c_no (c0 :: pre) code post Hpre Hpost Hcode c Hc).
+    intros Hc Hw. destruct (tick_wf _ _ _ _ _ Hw) as (Hok & _). destruct (tick_parts _ _ _ _ Hok) as (Hpre & Hpost & Hcode).
+    exact (c_no (c0 :: pre) code post n Hpre Hpost Hcode c Hc).
   Qed.
 
-  Lemma tick_block_line c0 pre code post : wf_b (FTick c0 pre code post) = true -> block_line (tick_line c0 pre code post).
+  Lemma tick_block_line c0 pre n code post : wf_b (FTick c0 pre n code post) = true -> block_line (tick_line c0 pre n code post).
   Proof.
-    intros Hw. destruct (tick_wf _ _ _ _ Hw) as (_ & Hfst & _ & Hlst).
+    intros Hw. destruct (tick_wf _ _ _ _ _ Hw) as (_ & Hfst & _ & Hlst).
     split; [exact Hfst|]. split; [apply (tick_no 124); [reflexivity|exact Hw]|]. split; [discriminate|exact Hlst].
   Qed.
 
-  Lemma tick_text c0 pre code post : text_of (spell (FTick c0 pre code post)) = [tick_line c0 pre code post ++ [10]].
+  Lemma tick_text c0 pre n code post : text_of (spell (FTick c0 pre n code post)) = [tick_line c0 pre n code post ++ [10]].
   Proof. reflexivity. Qed.
 
-  Lemma tick_try rec c0 pre code post rest ln st : wf_b (FTick c0 pre code post) = true -> (rest = [] \/ exists B, rest = NL :: B) ->
-    try_types types rec types (text_of (spell (FTick c0 pre code post)) ++ rest) ln st = Some (pre_of md ln (FTick c0 pre code post), 1%nat, st).
+  Lemma tick_try rec c0 pre n code post rest ln st : wf_b (FTick c0 pre n code post) = true -> (rest = [] \/ exists B, rest = NL :: B) ->
+    try_types types rec types (text_of (spell (FTick c0 pre n code post)) ++ rest) ln st = Some (pre_of md ln (FTick c0 pre n code post), 1%nat, st).
   Proof.
     intros Hw Hrest. rewrite tick_text. cbn [app pre_of].
-    apply (try_types_para_lines types rec (tick_line c0 pre code post) rest ln st _ _ (tick_block_line _ _ _ _ Hw)); [|exact Hp].
+    apply (try_types_para_lines types rec (tick_line c0 pre n code post) rest ln st _ _ (tick_block_line _ _ _ _ _ Hw)); [|exact Hp].
     destruct Hrest as [->|[B ->]]; [reflexivity|]. cbn [para_loop]. rewrite nl_blank. reflexivity.
   Qed.
 
-  Lemma tick_tokenize f c0 pre code post ln st : wf_b (FTick c0 pre code post) = true ->
-    tokenize_block types (S f) (text_of (spell (FTick c0 pre code post))) ln st = ([pre_of md ln (FTick c0 pre code post)], false, st).
+  Lemma tick_tokenize f c0 pre n code post ln st : wf_b (FTick c0 pre n code post) = true ->
+    tokenize_block types (S f) (text_of (spell (FTick c0 pre n code post))) ln st = ([pre_of md ln (FTick c0 pre n code post)], false, st).
   Proof.
-    intros Hw. pose proof (tick_try (tokenize_block types f) c0 pre code post [] ln st Hw (or_introl eq_refl)) as T. rewrite app_nil_r in T. rewrite tick_text in *.
+    intros Hw. pose proof (tick_try (tokenize_block types f) c0 pre n code post [] ln st Hw (or_introl eq_refl)) as T. rewrite app_nil_r in T. rewrite tick_text in *.
     cbn [tokenize_block length dispatch_loop]. rewrite T. reflexivity.
   Qed.
 
@@ -752,7 +752,7 @@ Section Main.
   Lemma first_line_follower t : is_item t = false -> wf_b t = true ->
     exists l2 more, text_of (spell t) = l2 :: more /\ (forall p, 0 < p -> parse_continuation l2 p = None) /\ parse_marker l2 = None.
   Proof.
-    intros Hi Hw. destruct t as [c body more|ch n content|ts|mk pad ts|mk pad ts bl next|lv hc hb|rc rn|e0 epre ech edbl ew epost|l0 lpre lw ldest lpost|s0 st0' sgs|k0 kpre kcode kpost|b0 bbody bk bmore|o0 opre ox opost]; [| | |discriminate|discriminate| | | | | | | |].
+    intros Hi Hw. destruct t as [c body more|ch n content|ts|mk pad ts|mk pad ts bl next|lv hc hb|rc rn|e0 epre ech edbl ew epost|l0 lpre lw ldest lpost|s0 st0' sgs|k0 kpre kn kcode kpost|b0 bbody bk bmore|o0 opre ox opost]; [| | |discriminate|discriminate| | | | | | | |].
     - destruct (wf_para c body more Hw) as (Hw' & Hnm & _).
       destruct Hw' as (Hf1 & _ & _ & _). cbn [hd] in Hf1.
       assert (Hc : first_ok c = true).
@@ -827,15 +827,15 @@ Section Main.
       + intros p Hp0. change (sent_line s0 st0' sgs ++ [10]) with (line_of 0 s0 (st0' ++ mbody sgs)). apply parse_continuation_short; assumption.
       + unfold parse_marker, sent_line. change ((s0 :: st0' ++ mbody sgs) ++ [10]) with (s0 :: ((st0' ++ mbody sgs) ++ [10])).
         rewrite rmatch_first by exact Hnm. reflexivity.
-    - destruct (tick_wf _ _ _ _ Hw) as (Hok & Hfst & Hnm & _). rewrite tick_text.
+    - destruct (tick_wf _ _ _ _ _ Hw) as (Hok & Hfst & Hnm & _). rewrite tick_text.
       eexists. eexists. split; [reflexivity|].
       assert (Hc : first_ok k0 = true).
       { apply nonspace_first_ok. unfold nonspace. change (cat_match CatSpace k0) with (is_space_c k0). rewrite (plain_first_not_space k0 Hfst). reflexivity. }
-      assert (Hb : mem 10 (tick_body kpre kcode kpost) = false).
-      { pose proof (tick_no 10 k0 kpre kcode kpost eq_refl Hw) as M. unfold tick_line, mem in M. cbn [existsb] in M. apply orb_false_iff in M as [_ M]. exact M. }
+      assert (Hb : mem 10 (tick_body kpre kn kcode kpost) = false).
+      { pose proof (tick_no 10 k0 kpre kn kcode kpost eq_refl Hw) as M. unfold tick_line, mem in M. cbn [existsb] in M. apply orb_false_iff in M as [_ M]. exact M. }
       split.
-      + intros p Hp0. change (tick_line k0 kpre kcode kpost ++ [10]) with (line_of 0 k0 (tick_body kpre kcode kpost)). apply parse_continuation_short; assumption.
-      + unfold parse_marker, tick_line. change ((k0 :: tick_body kpre kcode kpost) ++ [10]) with (k0 :: (tick_body kpre kcode kpost ++ [10])).
+      + intros p Hp0. change (tick_line k0 kpre kn kcode kpost ++ [10]) with (line_of 0 k0 (tick_body kpre kn kcode kpost)). apply parse_continuation_short; assumption.
+      + unfold parse_marker, tick_line. change ((k0 :: tick_body kpre kn kcode kpost) ++ [10]) with (k0 :: (tick_body kpre kn kcode kpost ++ [10])).
         rewrite rmatch_first by exact Hnm. reflexivity.
     - rewrite (fbrk_text _ _ _ _ Hw). cbn [wf_b] in Hw. destruct (brk_para_lines _ Hw) as (x & r & E & (Hfx & _ & Hnex) & _ & Hnm & Hhx & H10).
       rewrite E. unfold nl_lines. cbn [map]. eexists. eexists. split; [reflexivity|].
@@ -945,7 +945,7 @@ Section Main.
       eexists. eexists. eexists. eexists. eexists. split; [reflexivity|]. split; [apply marker_line_cont; assumption|].
       split; [apply (parse_marker_line mk pad c0 body0 Hmk Hpad Hc0)|]. split; [exact Hth|].
       destruct (marker_first mk Hmk) as (m0 & mr & Em & Hm0). rewrite Em. eexists. eexists. split; [reflexivity|exact Hm0]. }
-    destruct t as [c body more|ch n content|ts|mk pad ts|mk pad ts bl next|lv hc hb|rc rn|e0 epre ech edbl ew epost|l0 lpre lw ldest lpost|s0 st0' sgs|k0 kpre kcode kpost|b0 bbody bk bmore|o0 opre ox opost]; try discriminate.
+    destruct t as [c body more|ch n content|ts|mk pad ts|mk pad ts bl next|lv hc hb|rc rn|e0 epre ech edbl ew epost|l0 lpre lw ldest lpost|s0 st0' sgs|k0 kpre kn kcode kpost|b0 bbody bk bmore|o0 opre ox opost]; try discriminate.
     - cbn [wf_b] in Hw. cbn [spell marker_of]. rewrite <- (app_nil_r (item_lines mk pad _)). apply G. exact Hw.
     - cbn [wf_b] in Hw. repeat rewrite andb_true_iff in Hw. destruct Hw as [[[Hw _] _] _]. cbn [spell marker_of]. apply G.
       repeat rewrite andb_true_iff. exact Hw.
@@ -1165,7 +1165,7 @@ Section Main.
 
   Lemma C_from f : (forall f', f = S f' -> Q f' /\ QN f') -> C f.
   Proof.
-    intros HQ t ln st Hw Hd. destruct t as [c body more|ch n content|ts|mk pad ts|mk pad ts bl next|lv hc hb|rc rn|e0 epre ech edbl ew epost|l0 lpre lw ldest lpost|s0 st0' sgs|k0 kpre kcode kpost|b0 bbody bk bmore|o0 opre ox opost].
+    intros HQ t ln st Hw Hd. destruct t as [c body more|ch n content|ts|mk pad ts|mk pad ts bl next|lv hc hb|rc rn|e0 epre ech edbl ew epost|l0 lpre lw ldest lpost|s0 st0' sgs|k0 kpre kn kcode kpost|b0 bbody bk bmore|o0 opre ox opost].
     - split; [cbn [spell text_of map]; discriminate|]. intros B _. rewrite para_try_app by exact Hw. reflexivity.
     - split; [destruct (fence_wf ch n content Hw) as ((_ & H3) & _); rewrite fence_text by lia; discriminate|].
       intros B _. rewrite fence_try by exact Hw. reflexivity.
@@ -1192,7 +1192,7 @@ Section Main.
     - split; [rewrite em_text; discriminate|]. intros B _. rewrite (em_try _ _ _ _ _ _ _ (NL :: B) ln st Hw) by (right; exists B; reflexivity). rewrite em_text. reflexivity.
     - split; [rewrite link_text; discriminate|]. intros B _. rewrite (link_try _ _ _ _ _ _ (NL :: B) ln st Hw) by (right; exists B; reflexivity). rewrite link_text. reflexivity.
     - split; [rewrite sent_text; discriminate|]. intros B _. rewrite (sent_try _ _ _ _ (NL :: B) ln st Hw) by (right; exists B; reflexivity). rewrite sent_text. reflexivity.
-    - split; [rewrite tick_text; discriminate|]. intros B _. rewrite (tick_try _ _ _ _ _ (NL :: B) ln st Hw) by (right; exists B; reflexivity). rewrite tick_text. reflexivity.
+    - split; [rewrite tick_text; discriminate|]. intros B _. rewrite (tick_try _ _ _ _ _ _ (NL :: B) ln st Hw) by (right; exists B; reflexivity). rewrite tick_text. reflexivity.
     - split.
       + rewrite (fbrk_text _ _ _ _ Hw). cbn [wf_b] in Hw. destruct (brk_para_lines _ Hw) as (x & r & E & _). rewrite E. discriminate.
       + intros B _. rewrite (fbrk_try _ _ _ _ _ (NL :: B) ln st Hw) by (right; exists B; reflexivity). reflexivity.
@@ -1276,7 +1276,7 @@ Section Main.
 
   Lemma P_succ f : Q f -> QN f -> P (S f).
   Proof.
-    intros HQ HQN t ln st Hw Hd. destruct t as [c body more|ch n content|ts|mk pad ts|mk pad ts bl next|lv hc hb|rc rn|e0 epre ech edbl ew epost|l0 lpre lw ldest lpost|s0 st0' sgs|k0 kpre kcode kpost|b0 bbody bk bmore|o0 opre ox opost].
+    intros HQ HQN t ln st Hw Hd. destruct t as [c body more|ch n content|ts|mk pad ts|mk pad ts bl next|lv hc hb|rc rn|e0 epre ech edbl ew epost|l0 lpre lw ldest lpost|s0 st0' sgs|k0 kpre kn kcode kpost|b0 bbody bk bmore|o0 opre ox opost].
     - rewrite para_tokenize by exact Hw. reflexivity.
     - rewrite fence_tokenize by exact Hw. reflexivity.
     - cbn [wf_b] in Hw. repeat rewrite andb_true_iff in Hw. destruct Hw as [[Hs Hall] Hg].
@@ -1298,7 +1298,7 @@ Section Main.
 
   Lemma P_zero : P 0.
   Proof.
-    intros t ln st Hw Hd. destruct t as [c body more|ch n content|ts|mk pad ts|mk pad ts bl next|lv hc hb|rc rn|e0 epre ech edbl ew epost|l0 lpre lw ldest lpost|s0 st0' sgs|k0 kpre kcode kpost|b0 bbody bk bmore|o0 opre ox opost]; [| |cbn [depth] in Hd; lia|cbn [depth] in Hd; lia|cbn [depth] in Hd; lia| | | | | | | |].
+    intros t ln st Hw Hd. destruct t as [c body more|ch n content|ts|mk pad ts|mk pad ts bl next|lv hc hb|rc rn|e0 epre ech edbl ew epost|l0 lpre lw ldest lpost|s0 st0' sgs|k0 kpre kn kcode kpost|b0 bbody bk bmore|o0 opre ox opost]; [| |cbn [depth] in Hd; lia|cbn [depth] in Hd; lia|cbn [depth] in Hd; lia| | | | | | | |].
     - rewrite para_tokenize by exact Hw. reflexivity.
     - rewrite fence_tokenize by exact Hw. reflexivity.
     - rewrite head_tokenize by exact Hw. reflexivity.
@@ -1422,7 +1422,7 @@ Section TokOf.
       Paragraph (RawText (c0 :: pre) :: (if double then Strong [ch] [RawText w] else Emphasis [ch] [RawText w]) :: raw_if post)
     | FLink c0 pre w dest post => Paragraph (RawText (c0 :: pre) :: ilink_of w dest :: raw_if post)
     | FSent c0 t0 gs => Paragraph (RawText (c0 :: t0) :: mix_toks gs)
-    | FTick c0 pre code post => Paragraph (RawText (c0 :: pre) :: code_of code :: raw_if post)
+    | FTick c0 pre n code post => Paragraph (RawText (c0 :: pre) :: code_of n code :: raw_if post)
     | FBrk c body k more => Paragraph (brk_toks ((c :: body, k) :: more))
     | FOne c0 pre x post => Paragraph (RawText (c0 :: pre) :: inl_tok x :: raw_if post)
     end.
@@ -1516,15 +1516,15 @@ Section Tokens.
     rewrite T. reflexivity.
   Qed.
 
-  Lemma build_tick c0 pre code post ln : wf_b (FTick c0 pre code post) = true ->
-    build span_types keep fn (pre_of md ln (FTick c0 pre code post)) = Some (tok_of md (FTick c0 pre code post)).
+  Lemma build_tick c0 pre n code post ln : wf_b (FTick c0 pre n code post) = true ->
+    build span_types keep fn (pre_of md ln (FTick c0 pre n code post)) = Some (tok_of md (FTick c0 pre n code post)).
   Proof.
-    intros Hw. destruct (tick_wf _ _ _ _ Hw) as (Hok & _).
+    intros Hw. destruct (tick_wf _ _ _ _ _ Hw) as (Hok & _).
     cbn [pre_of build tok_of map concat]. rewrite app_nil_r.
-    change (c0 :: tick_body pre code post ++ [10]) with (tick_line c0 pre code post ++ [10]).
-    destruct (strip_block_line _ (tick_block_line _ _ _ _ Hw)) as [S _]. rewrite S. unfold inline.
-    pose proof (code_in_sentence span_types fn (c0 :: pre) code post Hcodes Hok) as T.
-    replace (tick_line c0 pre code post) with ((c0 :: pre) ++ [96] ++ code ++ [96] ++ post) by reflexivity.
+    change (c0 :: tick_body pre n code post ++ [10]) with (tick_line c0 pre n code post ++ [10]).
+    destruct (strip_block_line _ (tick_block_line _ _ _ _ _ Hw)) as [S _]. rewrite S. unfold inline.
+    pose proof (code_in_sentence span_types fn n (c0 :: pre) code post Hcodes Hok) as T.
+    replace (tick_line c0 pre n code post) with ((c0 :: pre) ++ ticks n ++ code ++ ticks n ++ post) by reflexivity.
     rewrite T. reflexivity.
   Qed.
 
@@ -1558,7 +1558,7 @@ Section Tokens.
   Proof.
     induction f as [|f IH].
     - intros t ln Hd Hw.
-      destruct t as [c body more|ch n content|ts|mk pad ts|mk pad ts bl next|lv hc hb|rc rn|e0 epre ech edbl ew epost|l0 lpre lw ldest lpost|s0 st0' sgs|k0 kpre kcode kpost|b0 bbody bk bmore|o0 opre ox opost]; [apply build_para; exact Hw|reflexivity|cbn [depth] in Hd; lia|cbn [depth] in Hd; lia|cbn [depth] in Hd; lia|apply build_head; exact Hw|apply build_rule; exact Hw|apply build_em; exact Hw|apply build_link; exact Hw|apply build_sent; exact Hw|apply build_tick; exact Hw|apply build_brk; exact Hw|apply build_one; exact Hw].
+      destruct t as [c body more|ch n content|ts|mk pad ts|mk pad ts bl next|lv hc hb|rc rn|e0 epre ech edbl ew epost|l0 lpre lw ldest lpost|s0 st0' sgs|k0 kpre kn kcode kpost|b0 bbody bk bmore|o0 opre ox opost]; [apply build_para; exact Hw|reflexivity|cbn [depth] in Hd; lia|cbn [depth] in Hd; lia|cbn [depth] in Hd; lia|apply build_head; exact Hw|apply build_rule; exact Hw|apply build_em; exact Hw|apply build_link; exact Hw|apply build_sent; exact Hw|apply build_tick; exact Hw|apply build_brk; exact Hw|apply build_one; exact Hw].
     - assert (Kids : forall ts ln, Forall (fun t => (depth t <= f)%nat) ts -> forallb wf_b ts = true ->
                 flat_map (fun e => match build span_types keep fn e with Some t => [t] | None => [] end) (pre_seq md ln ts) = tok_seq md ts).
       { induction ts as [|t0 r IHr]; intros ln0 Hds Hws; [reflexivity|].
@@ -1566,7 +1566,7 @@ Section Tokens.
         cbn [pre_seq flat_map tok_seq]. rewrite (IH t0 ln0) by assumption. cbn [app]. f_equal.
         destruct r as [|t1 r']; [reflexivity|]. rewrite flat_map_app. rewrite IHr by assumption.
         f_equal. unfold blank_entry, blank_tok. destruct md; reflexivity. }
-      intros t. induction t as [c body more|ch n content|ts|mk pad ts|mk pad ts bl next IHn|lv hc hb|rc rn|e0 epre ech edbl ew epost|l0 lpre lw ldest lpost|s0 st0' sgs|k0 kpre kcode kpost|b0 bbody bk bmore|o0 opre ox opost]; intros ln Hd Hw;
+      intros t. induction t as [c body more|ch n content|ts|mk pad ts|mk pad ts bl next IHn|lv hc hb|rc rn|e0 epre ech edbl ew epost|l0 lpre lw ldest lpost|s0 st0' sgs|k0 kpre kn kcode kpost|b0 bbody bk bmore|o0 opre ox opost]; intros ln Hd Hw;
         [apply build_para; exact Hw|reflexivity| | | |apply build_head; exact Hw|apply build_rule; exact Hw|apply build_em; exact Hw|apply build_link; exact Hw|apply build_sent; exact Hw|apply build_tick; exact Hw|apply build_brk; exact Hw|apply build_one; exact Hw].
       + cbn [wf_b] in Hw. repeat rewrite andb_true_iff in Hw. destruct Hw as [[_ Hall] _].
         rewrite pre_of_quote. cbn [build]. rewrite Kids; [reflexivity| |exact Hall].
@@ -1626,7 +1626,7 @@ Proof.
     { induction ts as [|t0 r IHr]; intros ln0 Hds; [reflexivity|]. inversion Hds; subst.
       cbn [pre_seq flat_map]. rewrite (IH t0 ln0) by assumption. cbn [app].
       destruct r as [|t1 r']; [reflexivity|]. rewrite flat_map_app, IHr by assumption. unfold blank_entry. destruct md; reflexivity. }
-    intros t. induction t as [c body more|ch n content|ts|mk pad ts|mk pad ts bl next IHn|lv hc hb|rc rn|e0 epre ech edbl ew epost|l0 lpre lw ldest lpost|s0 st0' sgs|k0 kpre kcode kpost|b0 bbody bk bmore|o0 opre ox opost]; intros ln Hd; try reflexivity.
+    intros t. induction t as [c body more|ch n content|ts|mk pad ts|mk pad ts bl next IHn|lv hc hb|rc rn|e0 epre ech edbl ew epost|l0 lpre lw ldest lpost|s0 st0' sgs|k0 kpre kn kcode kpost|b0 bbody bk bmore|o0 opre ox opost]; intros ln Hd; try reflexivity.
     + rewrite pre_of_quote. cbn [defs_of]. apply Kids. apply children_depth. cbn [depth] in Hd. exact Hd.
     + rewrite pre_of_item. cbn [defs_of flat_map]. rewrite app_nil_r. apply Kids. apply children_depth. cbn [depth] in Hd. exact Hd.
     + cbn [depth] in Hd. rewrite pre_of_more. cbv zeta.
